@@ -48,21 +48,185 @@ def _mk_endpoint(clock, log, idx):
     return Ep()
 
 
-def history(sx, ntrans, retries, A, with_main, stop_at):
+class _TwEnv:
+    """Twisted flavour: scripted IStreamClientEndpoint objects, task.Clock as reactor"""
+    fw = "twisted"
+
+    def __init__(self, ntrans):
+        self.clock = wslib.setup_twisted()
+        self.log = []
+        self.eps = [_mk_endpoint(self.clock, self.log, i) for i in range(ntrans)]
+
+    def transport_cfg(self, i, **kw):
+        return dict(type="rawsocket", url="rs://localhost:%d" % (9000 + i), endpoint=self.eps[i], serializer="json", **kw)
+
+    def component(self, **kw):
+        from autobahn.twisted.component import Component
+        return Component(**kw)
+
+    def start(self, comp, done):
+        d = comp.start(reactor=self.clock)
+        d.addCallbacks(lambda r: done.append(("ok", r)), lambda f: done.append(("err", f.value)))
+
+    def main_fn(self, main_calls):
+        def main(reactor, session):
+            main_calls.append(session)
+            return None
+        return main
+
+    def now(self):
+        return self.clock.seconds()
+
+    def timers(self):
+        return [c.getTime() for c in self.clock.getDelayedCalls()]
+
+    def advance_to(self, t):
+        self.clock.advance(max(0.0, t - self.clock.seconds()))
+
+    def drain(self):
+        wslib.drain(self.clock, dt=0.0001)
+
+    def pending(self, i):
+        return self.eps[i].pending is not None
+
+    def any_pending(self):
+        return any(e.pending for e in self.eps)
+
+    def refuse(self, i):
+        from twisted.python.failure import Failure
+        from twisted.internet.error import ConnectionRefusedError
+        factory, cd = self.eps[i].pending
+        self.eps[i].pending = None
+        cd.errback(Failure(ConnectionRefusedError()))
+
+    def connect(self, i):
+        from twisted.python.failure import Failure
+        from twisted.internet.error import ConnectionDone, ConnectionLost
+        factory, cd = self.eps[i].pending
+        self.eps[i].pending = None
+        proto = factory.buildProtocol(None)
+        proto.log = NULLLOG
+        tr = FakeTransport(Trace(), "X")
+        proto.makeConnection(tr)
+        cd.callback(proto)
+
+        class IO:
+            def rx(self_, data):
+                proto.dataReceived(data)
+
+            def lost(self_, clean=True):
+                proto.connectionLost(Failure(ConnectionDone() if clean else ConnectionLost()))
+        return IO()
+
+
+class _AioEnv:
+    """asyncio flavour: a real SelectorEventLoop with virtual time whose create_connection() is answered by the harness"""
+    fw = "asyncio"
+
+    def __init__(self, ntrans):
+        import asyncio
+        import txaio
+        txaio.use_asyncio()
+        env = self
+        self.log = []
+        self.pend = {}
+
+        class VLoop(asyncio.SelectorEventLoop):
+            _vt = 0.0
+
+            def time(self):
+                return self._vt
+
+            def create_connection(self, protocol_factory, host=None, port=None, **kw):
+                fut = self.create_future()
+                idx = port - 9000
+                env.pend[idx] = (protocol_factory, fut)
+                env.log.append(("connect", idx, self._vt))
+
+                async def cc():
+                    return await fut
+                return cc()
+        self.loop = VLoop()
+        asyncio.set_event_loop(self.loop)
+        txaio.config.loop = self.loop
+        self.loop.verif_errors = []
+        self.loop.set_exception_handler(lambda lp, ctx: lp.verif_errors.append(repr(ctx.get("exception") or ctx.get("message"))))
+
+    def transport_cfg(self, i, **kw):
+        return dict(type="rawsocket", url="rs://localhost:%d" % (9000 + i), endpoint=dict(type="tcp", host="localhost", port=9000 + i), serializer="json", **kw)
+
+    def component(self, **kw):
+        from autobahn.asyncio.component import Component
+        return Component(**kw)
+
+    def start(self, comp, done):
+        import txaio
+        f = comp.start(loop=self.loop)
+        txaio.add_callbacks(f, lambda r: done.append(("ok", r)), lambda fail: done.append(("err", fail.value)))
+        wslib.run_loop(self.loop)
+
+    def main_fn(self, main_calls):
+        def main(reactor, session):
+            main_calls.append(session)
+            return None
+        return main
+
+    def now(self):
+        return self.loop._vt
+
+    def timers(self):
+        return [h.when() for h in self.loop._scheduled if not h.cancelled()]
+
+    def advance_to(self, t):
+        self.loop._vt = max(self.loop._vt, t)
+        wslib.run_loop(self.loop)
+
+    def drain(self):
+        wslib.run_loop(self.loop)
+
+    def pending(self, i):
+        return i in self.pend
+
+    def any_pending(self):
+        return bool(self.pend)
+
+    def refuse(self, i):
+        factory, fut = self.pend.pop(i)
+        fut.set_exception(ConnectionRefusedError())
+        wslib.run_loop(self.loop)
+
+    def connect(self, i):
+        factory, fut = self.pend.pop(i)
+        proto = factory()
+        proto.log = NULLLOG
+        tr = FakeTransport(Trace(), "X")
+        proto.connection_made(tr)
+        fut.set_result((tr, proto))
+        loop = self.loop
+        wslib.run_loop(loop)
+
+        class IO:
+            def rx(self_, data):
+                proto.data_received(data)
+                wslib.run_loop(loop)
+
+            def lost(self_, clean=True):
+                proto.connection_lost(None if clean else ConnectionResetError())
+                wslib.run_loop(loop)
+        return IO()
+
+
+def history(sx, ntrans, retries, A, with_main, stop_at, fw="twisted"):
     import struct
-    from twisted.python.failure import Failure
-    from twisted.internet.error import ConnectionDone, ConnectionLost, ConnectionRefusedError
     import autobahn.wamp.component as wc
-    from autobahn.twisted.component import Component
     from autobahn.wamp import message, role
     from autobahn.wamp.serializer import JsonSerializer
-    clock = wslib.setup_twisted()
+    env = _TwEnv(ntrans) if fw == "twisted" else _AioEnv(ntrans)
     wc.random = ModProxy(_random, normalvariate=lambda mu, sigma: mu)
-    log = []          # ("connect", transport idx, time)
-    eps = [_mk_endpoint(clock, log, i) for i in range(ntrans)]
+    log = env.log          # ("connect", transport idx, time)
     MAXD, INIT, GROW = 8.0, 1.0, 2.0
-    cfg = [dict(type="rawsocket", url="rs://localhost:%d" % (9000 + i), endpoint=eps[i], serializer="json", max_retries=retries[i],
-                max_retry_delay=MAXD, initial_retry_delay=INIT, retry_delay_growth=GROW, retry_delay_jitter=0.1) for i in range(ntrans)]
+    cfg = [env.transport_cfg(i, max_retries=retries[i], max_retry_delay=MAXD, initial_retry_delay=INIT, retry_delay_growth=GROW, retry_delay_jitter=0.1)
+           for i in range(ntrans)]
     events = []
     fatal_flags = []
 
@@ -72,18 +236,13 @@ def history(sx, ntrans, retries, A, with_main, stop_at):
         return f
 
     main_calls = []
-
-    def main(reactor, session):
-        main_calls.append(session)
-        return None
-
-    comp = Component(transports=cfg, realm="realm1", is_fatal=is_fatal, main=main if with_main else None)
+    main = env.main_fn(main_calls)
+    comp = env.component(transports=cfg, realm="realm1", is_fatal=is_fatal, main=main if with_main else None)
     comp.log = NULLLOG
     for ev in ("connect", "join", "ready", "leave", "disconnect"):
         comp.on(ev, (lambda ev: (lambda *a, **k: events.append(ev)))(ev))
     done = []
-    d = comp.start(reactor=clock)
-    d.addCallbacks(lambda r: done.append(("ok", r)), lambda f: done.append(("err", f.value)))
+    env.start(comp, done)
     ser = JsonSerializer()
     roles = {"broker": role.RoleBrokerFeatures(), "dealer": role.RoleDealerFeatures()}
     # shadow model of the retry budget
@@ -93,7 +252,7 @@ def history(sx, ntrans, retries, A, with_main, stop_at):
     hist = []
     finished = None      # "success" | "stopped" once the component is expected to complete successfully
     last_end = 0.0
-    info = dict(ntrans=ntrans, retries=retries, with_main=with_main, stop_at=stop_at)
+    info = dict(ntrans=ntrans, retries=retries, with_main=with_main, stop_at=stop_at, fw=fw)
 
     def can(i):
         return (not dead[i]) and (retries[i] == -1 or attempts[i] < retries[i] + 1)
@@ -102,16 +261,16 @@ def history(sx, ntrans, retries, A, with_main, stop_at):
     for a in range(A):
         if stop_at == a:
             comp.stop()
+            env.drain()
             finished = finished or "stopped"
         # let timers run until a connect is pending, bounded by the maximum retry delay
-        n0 = len(log)
-        t0 = clock.seconds()
-        while len(log) == n0 and not done and clock.seconds() - t0 <= MAXD + 1.0:
-            calls = clock.getDelayedCalls()
+        n0 = len(log) - (1 if env.any_pending() else 0)
+        t0 = env.now()
+        while len(log) == n0 and not done and env.now() - t0 <= MAXD + 1.0:
+            calls = [t for t in env.timers() if t <= t0 + MAXD + 1.0 or fw == "twisted"]
             if not calls:
                 break
-            nxt = min(c.getTime() for c in calls)
-            clock.advance(max(0.0, nxt - clock.seconds()))
+            env.advance_to(min(calls))
         if len(log) == n0:
             break
         _, ti, when = log[-1]
@@ -139,52 +298,46 @@ def history(sx, ntrans, retries, A, with_main, stop_at):
         # --- scripted outcome
         out = OUTCOMES[sx.choice("outcome%d" % a, len(OUTCOMES))]
         hist.append((ti, out))
-        factory, cd = eps[ti].pending
-        eps[ti].pending = None
         nf = len(fatal_flags)
         if out == "refused":
-            cd.errback(Failure(ConnectionRefusedError()))
+            env.refuse(ti)
             sx.cover("attempt:refused")
         else:
-            proto = factory.buildProtocol(None)
-            proto.log = NULLLOG
-            tr = FakeTransport(Trace(), "X")
-            proto.makeConnection(tr)
-            cd.callback(proto)
+            io = env.connect(ti)
             if out == "hs-fail":
-                proto.dataReceived(b"\x00\x00\x00\x00")
-                proto.connectionLost(Failure(ConnectionDone()))
+                io.rx(b"\x00\x00\x00\x00")
+                io.lost(True)
             else:
-                proto.dataReceived(bytes([0x7F, 0xF1, 0, 0]))
+                io.rx(bytes([0x7F, 0xF1, 0, 0]))
                 sessions += 1
 
                 def feed(m):
                     dd, _ = ser.serialize(m)
-                    proto.dataReceived(struct.pack("!I", len(dd)) + dd)
+                    io.rx(struct.pack("!I", len(dd)) + dd)
                 if out == "abort":
                     feed(message.Abort("wamp.error.no_such_realm", "nope"))
-                    proto.connectionLost(Failure(ConnectionDone()))
+                    io.lost(True)
                 else:
                     feed(message.Welcome(100 + a, roles))
                     if with_main:
                         attempts[ti] = 0          # transport.reset() on a successful join (registered together with main)
-                    wslib.drain(clock, dt=0.0001)
+                    env.drain()
                     if out == "joined-leave" or (with_main and main_calls):
                         # the session is left normally: by the router, or by the component after main() returned
                         if out == "joined-leave" and not with_main:
                             feed(message.Goodbye("wamp.close.normal"))
                         else:
                             feed(message.Goodbye("wamp.close.goodbye_and_out"))
-                        proto.connectionLost(Failure(ConnectionDone()))
+                        io.lost(True)
                         finished = finished or "success"
                         hist[-1] = (ti, "joined-left-normally")
                     elif out == "joined-lost":
-                        proto.connectionLost(Failure(ConnectionDone()))
+                        io.lost(True)
                         sx.cover("attempt:joined-lost")
                     else:
-                        proto.connectionLost(Failure(ConnectionLost()))
+                        io.lost(False)
                         sx.cover("attempt:joined-lost")
-        last_end = clock.seconds()
+        last_end = env.now()
         # fatal classification (free) applies to failures reported to the reconnect loop
         if len(fatal_flags) > nf and fatal_flags[-1] and finished is None:
             dead[ti] = True
@@ -193,16 +346,16 @@ def history(sx, ntrans, retries, A, with_main, stop_at):
             break
     # let everything settle
     for _ in range(6):
-        calls = clock.getDelayedCalls()
+        calls = [t for t in env.timers() if t <= env.now() + MAXD + 1.0 or fw == "twisted"]
         if not calls or done:
             break
-        clock.advance(max(0.0, min(c.getTime() for c in calls) - clock.seconds()))
-        if any(e.pending for e in eps):
+        env.advance_to(min(calls))
+        if env.any_pending():
             break
     info = dict(info, hist=hist, done=repr(done)[:120])
     sx.check(len(done) <= 1, "start()-result-completes-at-most-once", info=info)
     anycan = any(can(i) for i in range(ntrans))
-    pending_connect = any(e.pending for e in eps)
+    pending_connect = env.any_pending()
     if finished in ("success", "stopped"):
         sx.check(len(done) == 1 and done[0][0] == "ok", "normal-leave/main-finished/stop()=>start()-succeeds-once", info=info)
         sx.check(not pending_connect, "no-new-attempt-after-finishing", info=info)
@@ -214,7 +367,7 @@ def history(sx, ntrans, retries, A, with_main, stop_at):
     else:
         # attempts are left and nothing finished the component: it must still be trying
         sx.check(len(done) == 0, "not-finished-while-attempts-are-left", info=info)
-        sx.check(pending_connect or bool(clock.getDelayedCalls()), "keeps-reconnecting-while-attempts-are-left", info=info)
+        sx.check(pending_connect or bool(env.timers()), "keeps-reconnecting-while-attempts-are-left", info=info)
     # listeners registered on the component see every session
     sx.check(events.count("connect") == sessions, "component-connect-listener-per-session", info=dict(info, events=events, sessions=sessions))
     sx.check(events.count("disconnect") == sessions, "component-disconnect-listener-per-session", info=dict(info, events=events))
@@ -299,6 +452,12 @@ def units(tier):
                     continue
                 U.append(("hist/%s/%s/stop%s" % ("-".join(map(str, retries)), "main" if with_main else "nomain", stop_at), "history",
                           dict(ntrans=ntrans, retries=retries, A=A, with_main=with_main, stop_at=stop_at), dict(weight=5)))
+    # the asyncio component (its own _connect_transport / connection-lost wrapper) on a virtual-time event loop, own interpreter per unit
+    for ntrans, retries in ((1, [1]), (2, [0, 1])) + (() if q else ((1, [2]), (2, [1, 1]))):
+        for with_main in (False, True):
+            for stop_at in ((None,) if q else (None, 1)):
+                U.append(("aio/%s/%s/stop%s" % ("-".join(map(str, retries)), "main" if with_main else "nomain", stop_at), "history",
+                          dict(ntrans=ntrans, retries=retries, A=3 if q else 4, with_main=with_main, stop_at=stop_at, fw="asyncio"), dict(weight=9, framework="asyncio")))
     for k in (0, 1, 2, 5, 9):
         U.append(("backoff/%d" % k, "backoff_lemma", dict(attempts_before=k)))
     return U
